@@ -321,6 +321,31 @@ func zipvecMain(args []string) int {
 		}
 	}
 	runReuse()
+	if !*noODF {
+		// first entry META-INF/MANIFEST.MF: JAR, whatever follows beyond the sixth entry
+		for ci, rest := range [][]string{
+			{"a.class", "META-INF/CERT.SF", "META-INF/CERT.RSA", "b.class", "c.class", "classes.dex"},
+			{"META-INF/services/x", "META-INF/LICENSE", "META-INF/NOTICE", "META-INF/maven/p.xml", "d.class", "AndroidManifest.xml", "resources.arsc"},
+			{"a.class", "b.class", "c.class", "d.class", "e.class", "word/document.xml", "classes.dex"},
+		} {
+			for _, desc := range []bool{false, true} {
+				entries := []zipEntry{{"META-INF/MANIFEST.MF", 40, 0}}
+				for _, nm := range rest {
+					entries = append(entries, zipEntry{nm, 20, 0})
+				}
+				raw, err := buildZip(entries, desc, false, rng, nil)
+				if err != nil {
+					fmt.Fprintln(os.Stderr, err)
+					return 2
+				}
+				m := mimetype.Detect(exact(raw))
+				n++
+				if zipClass(m) != "jar" {
+					rep.violate(Violation{Property: "C19", Kind: "manifest-first", Text: fmt.Sprintf("META-INF/MANIFEST.MF, %v desc=%v", rest, desc), Detail: "Detect reports " + m.String(), Key: fmt.Sprintf("C19|jar|%d|%v", ci, desc)})
+				}
+			}
+		}
+	}
 	mimetype.SetLimit(3072)
 	rep.Evaluations = n
 	rep.Nontrivial = positive + odfN
